@@ -50,8 +50,10 @@ def reset():
     ml.ML_ALLOWLIST.update(copy.deepcopy(BASE0))
 
 
-def replay(hist, shared=False):
-    """shared=True: the caller keeps ONE additions list per use (activations / constructions) and edits it in place; no
+def replay(hist, shared=False, mediated=False):
+    """mediated=True: while an activation is in force, an unpickler with additions is constructed through the pickle
+    module (`pickle.Unpickler(f, also_allow=A)`, the class the activation installed) rather than by naming the class.
+    shared=True: the caller keeps ONE additions list per use (activations / constructions) and edits it in place; no
     unrelated unpickler is constructed in between (the probes through a fresh unpickler are skipped)"""
     reset()
     if ml.ML_ALLOWLIST != BASE0:
@@ -74,7 +76,11 @@ def replay(hist, shared=False):
             active = True
         else:
             a = ADD[op[-1]]
-            if a and shared:
+            if a and mediated and active and pickle.Unpickler is not ORIG_UNPICKLER:
+                if shared:
+                    CON_LIST[:] = a
+                inst = (lambda data, a=a: pickle.Unpickler(io.BytesIO(data), also_allow=(CON_LIST if shared else list(a))))
+            elif a and shared:
                 CON_LIST[:] = a
                 inst = (lambda data: ml.FicklingMLUnpickler(io.BytesIO(data), also_allow=CON_LIST))
             else:
@@ -101,7 +107,7 @@ def main():
         m, n = g.rsplit(".", 1)
         if (m in BASE0 and n in BASE0[m]) != want:
             raise SystemExit(f"vocabulary assumption broken: {g} in built-in allowlist = {not want}")
-    out = [{"id": i, "hist": h, "steps": replay(h, shared=(i % 2 == 1))} for i, h in enumerate(hists)]
+    out = [{"id": i, "hist": h, "steps": replay(h, shared=(i % 2 == 1), mediated=(i % 4 >= 2))} for i, h in enumerate(hists)]
     json.dump(out, open(sys.argv[2], "w"))
 
 
